@@ -12,22 +12,28 @@ from ..loader import AnalysisError, ClassInfo, Func, Program, dotted, norm
 from . import common as C
 
 ID = 'C13'
-TECHNIQUE = ('who-may-write inventory of every syntactic attribute store in the package (magnitude written only at '
-             'construction), abstract evaluation of the comparison dunders to guard normal forms, field-read sets of '
-             '__hash__ vs __eq__, and exhaustive evaluation of to_raw/from_raw on the 7x34 foreign units')
+TECHNIQUE = ('who-may-write inventory of every syntactic attribute store in the package (magnitude written '
+             'only at construction), abstract evaluation of the comparisons - taken through the operator, so '
+             'that a method bound in the class body to a function object is followed - to guard normal forms,'
+             ' field-read sets of __hash__ vs __eq__, and exhaustive evaluation of to_raw/from_raw on the '
+             '7x34 foreign units')
 DECIDED = [
-    'R1 the magnitude field is stored only in AbstractDimension.__init__ and on fresh objects from object.__new__ '
-    '(fast constructors); convert and its aliases store the display unit only; no setter / __setattr__ / __dict__ route',
-    'R2 __eq__, __lt__, __gt__, __le__, __ge__ are defined once, compare the base-unit magnitude with the operator of '
-    'their own name and read nothing else (__ne__ inherited from __eq__)',
+    'R1 the magnitude field is stored only in AbstractDimension.__init__ and on fresh objects from '
+    'object.__new__ (fast constructors); convert and its aliases store the display unit only; no setter / '
+    '__setattr__ / __dict__ route',
+    'R2 ==, <, >, <=, >= on a quantity (against a number and against a quantity in another, unknown display '
+    'unit) are defined once, on AbstractDimension, compare the base-unit magnitude with the operator of their'
+    ' own name and read nothing else (__ne__ inherited from __eq__)',
     'R3 __hash__ reads a subset of what __eq__ reads and nothing that is written after construction',
     'R4 to_raw / from_raw of every dimension raise on every path for each of the 34 units of other dimensions',
-    'R5 get_in (>>) raises, and convert (<<) and Unit.X(quantity) raise or hand back a quantity whose unit_value / get_in '
-    'raise, on every path for every quantity dimension and each unit of another dimension (7 x 3 x 34 evaluations); no '
-    'memoising decorator on the quantity classes or on Unit',
+    'R5 get_in (>>) raises, and convert (<<) and Unit.X(quantity) raise or hand back a quantity whose '
+    'unit_value / get_in raise, on every path for every quantity dimension and each unit of another dimension'
+    ' (7 x 3 x 34 evaluations); no memoising decorator on the quantity classes or on Unit',
 ]
-NOT_DECIDED = ['nothing further (the magnitude of a quantity reached through an arbitrary alias is covered by the '
-               'who-may-write inventory, which is name based: an attribute called _value is assumed to be the magnitude)']
+NOT_DECIDED = [
+    'nothing further (the magnitude of a quantity reached through an arbitrary alias is covered by the who-'
+    'may-write inventory, which is name based: an attribute called _value is assumed to be the magnitude)',
+]
 
 MAG = '_value'
 DISPLAY = '_defined_units'
